@@ -65,8 +65,8 @@ func run(c *props.Ctx) {
 	c.R.Floor("LAY-1", 30)
 	c.R.Floor("LAY-2", 46)
 	c.R.Floor("HDR-1", 8)
-	c.R.Floor("HDR-2", 8)
-	c.R.Floor("LAY-5", 5)
+	c.R.Floor("HDR-2", 7)
+	c.R.Floor("LAY-5", 3)
 	c.R.Floor("AXIS-3", 50)
 	c.R.Floor("AXIS-1", 32)
 	c.R.Floor("REC-1", 22)
